@@ -97,6 +97,11 @@ CHECKS["C14"] = dict(
     text="Coq theorems for every world: Subscribe message/entry content (ids, TTL, counter 0, one endpoint option from the local sockname and protocol), subscribe-while-alive defers exactly one Subscribe, stop of an unknown request is a no-op. The mirror statement (ideal server) and refresh bound are judged on every run by check_C14 on implementation traces + exact trace correspondence; not proved.",
     design="6 (C14)", technique="Coq function-level proofs + exact trace correspondence on a virtual-time loop + extracted checker (ideal-server fold)", note=STACK_NOTE)
 
+CHECKS["C17"] = dict(
+    text="Coq theorems over the model of SimpleEventgroup / SimpleService.client_subscribed (Model/ServiceStack.v, its own event-loop model) for every world, value map and schedule: what one _notify_single transmits decodes with the C01 datagram decoder into exactly one NOTIFICATION per requested event with service id, 0x8000|event, client 0, interface version = major version, E_OK, the current value and the destination's next session ids (C08 cycle); refusal of unknown eventgroup / not exactly one endpoint changes nothing; the subscriber data is a counter of live subscriptions per endpoint (subscribe +1, unsubscribe -1, addressed iff count >= 1, once each) as an invariant of EVERY callback and every reachable state of the loop model; a round creates one child per addressed endpoint and nothing without subscribers. Not proved: the timed end-to-end statement (which round happens when); judged on every run by the extracted check_C17 on implementation traces + complete-trace correspondence incl. a session-id wrap through _notify_single. Found and fixed F14.",
+    design="6 (C17)", technique="Coq proof (invariant over every callback of the loop model, codec round trip reuse from C01, session cycle from C08) + exact trace correspondence on a virtual-time loop + extracted checker",
+    note=COMMON_NOTE + " Loop-level: asyncio tasks, gather, Event and getaddrinfo are MODELLED (hop rules calibrated against CPython 3.12 under the virtual-time loop); the model never runs late.")
+
 NOT_YET = {}
 
 
